@@ -23,6 +23,7 @@ import OtterVerif.Gen.Skeleton
 import OtterVerif.Conc.TableSkeleton
 import OtterVerif.Lin.Check
 import OtterVerif.Conc.Resize
+import OtterVerif.Conc.Bucket
 
 namespace OtterVerif.Props.C15
 open OtterVerif OtterVerif.Spec
@@ -110,6 +111,22 @@ theorem c15_resize_example : ∃ s, Conc.Resize.Reach s ∧ s.cur = 1 ∧ s.abs 
     (Step.wApply _ 0 (some 7) (by simp [upd]))) (Step.rStart _ rfl)) (Step.rCopy _ rfl rfl rfl (by simp [upd])))
     (Step.rPublish _ rfl rfl rfl)) (Step.rDone _ rfl rfl), rfl, rfl, ?_⟩
   simp [upd]
+
+
+/-! ### One bucket chain: lock-free readers against the single stores of the locked writer (Conc.Bucket) -/
+
+/-- a reader walking a chain while the writer inserts, replaces, deletes, appends buckets or the table is replaced returns
+    what the chain mapped its key to in some state of its own search (every schedule, any number of readers) -/
+theorem c15_lockfree_read_consistent (w : Nat) (h2 : Nat → Nat) (hw : 0 < w) {s : Conc.Bucket.St}
+    (h : Conc.Bucket.Reach w h2 s) {r k : Nat} {v : Option Conc.Bucket.Node} (hd : s.m.rd r = .done k v) :
+    ∃ s0, Conc.Bucket.Reach w h2 s0 ∧ Conc.Bucket.Run w h2 s0 s ∧ (s0.m.rd r).key = some k ∧ Conc.Bucket.Abs h2 s0.m k v :=
+  Conc.Bucket.read_linearizable_run w h2 hw h hd
+
+/-- in every reachable chain: no key in two slots; a pointer without its meta byte only in the middle of its own deletion;
+    a meta byte without pointer only in the middle of its own insertion is covered by `insI`; nothing beyond the last bucket -/
+theorem c15_chain_invariant (w : Nat) (h2 : Nat → Nat) (hw : 0 < w) {s : Conc.Bucket.St} (h : Conc.Bucket.Reach w h2 s) :
+    Conc.Bucket.MInv w h2 s.m :=
+  (Conc.Bucket.reach_inv w h2 hw h).1
 
 /-! ### Non-vacuity -/
 example : (Gen.Swar.h2 0xffffffffffffffff).toNat = 127 := by decide
